@@ -1,6 +1,7 @@
 //! Generates `gen.rs`: one module per corpus grammar with the derive-generated parser and a table of
 //! entry points. Rule names and kinds are taken from pest_meta's own parser, not from a regex.
-use pest_meta::ast::RuleType;
+use pest_meta::ast::{Expr, RuleType};
+use std::collections::{BTreeMap, BTreeSet};
 use pest_meta::parser::{self, Rule};
 use std::fmt::Write as _;
 use std::{env, fs, path::PathBuf};
@@ -31,6 +32,38 @@ fn main() {
         let text = fs::read_to_string(&path).unwrap_or_else(|e| panic!("{path}: {e}"));
         let pairs = parser::parse(Rule::grammar_rules, &text).unwrap_or_else(|e| panic!("{path}: {e}"));
         let rules = parser::consume_rules(pairs).unwrap_or_else(|e| panic!("{path}: {e:?}"));
+        // Rules that reach `e+`, `e{n,}`, `e{,m}` or `e{n,m}` in a grammar with implicit skipping: the call sites of a
+        // recorded C20 finding (known_findings.json); everything else is compared strictly.
+        let has_skip = rules.iter().any(|r| r.name == "WHITESPACE" || r.name == "COMMENT");
+        let mut direct: BTreeMap<&str, bool> = BTreeMap::new();
+        let mut refs: BTreeMap<&str, BTreeSet<String>> = BTreeMap::new();
+        for r in rules.iter() {
+            let mut d = false;
+            let mut rs = BTreeSet::new();
+            for e in r.expr.iter_top_down() {
+                match e {
+                    Expr::RepOnce(_) | Expr::RepMin(..) | Expr::RepMax(..) | Expr::RepMinMax(..) => d = true,
+                    Expr::Ident(n) => {
+                        rs.insert(n);
+                    }
+                    _ => {}
+                }
+            }
+            direct.insert(r.name.as_str(), d);
+            refs.insert(r.name.as_str(), rs);
+        }
+        let mut quirk: BTreeSet<String> = direct.iter().filter(|(_, d)| **d).map(|(n, _)| n.to_string()).collect();
+        loop {
+            let before = quirk.len();
+            for (n, rs) in refs.iter() {
+                if rs.iter().any(|x| quirk.contains(x)) {
+                    quirk.insert(n.to_string());
+                }
+            }
+            if quirk.len() == before {
+                break;
+            }
+        }
         let seeds_path = format!("{verif}/corpus/{name}.seeds");
         println!("cargo:rerun-if-changed={seeds_path}");
         let seeds = fs::read_to_string(&seeds_path).unwrap_or_default();
@@ -63,7 +96,8 @@ fn main() {
                 RuleType::Atomic => "entry_atomic",
                 _ => "entry_full",
             };
-            writeln!(out, "        crate::{mac}!({name:?}, {:?}, Rule, rules::r#{}),", r.name, r.name).unwrap();
+            let q = has_skip && quirk.contains(&r.name);
+            writeln!(out, "        crate::{mac}!({name:?}, {:?}, {q}, Rule, rules::r#{}),", r.name, r.name).unwrap();
         }
         writeln!(out, "    ] }}").unwrap();
         writeln!(out, "    pub const SEEDS: &str = {seeds:?};").unwrap();
